@@ -525,3 +525,108 @@ def run_special(cfg, seed, scenario):
         out.n_datagrams = sim.net.ngen
         out.bound = bound
     return out
+
+
+def run_two_clients(cfg, seed, how_a_ends):
+    """Two clients A and B connected to one server port at the same time. A's connection ends (how_a_ends = 'disconnect' | 'dies' |
+    'kicked'), later B's link dies silently: B's server-side connection must still be supervised — its handler is released within
+    the bound and the server forgets it. ops: (name, t_start, t_end, outcome); out.b_dead_at; out.server_table."""
+    rng = random.Random(seed)
+    out = ps.Session()
+    out.cfg = out.cfg_s = cfg
+    out.seed, out.ops, out.kill = seed, [], None
+    out.skip_l1 = True
+    bound = cfg.ping_timeout + (cfg.resend_limit + 1) * cfg.resend_timeout
+    with Sim(seed) as sim:
+        s = cfg.settings()
+        out.settings = out.settings_s = s
+        sim.install_factories()
+        dead = set()
+        sim.net.fate = lambda tx: [] if (tx.src in dead or tx.dst in dead) else [0.01]
+        log = sim.net.log
+        stream_ref, addr, handlers = {}, {}, {}
+        out.errors = []
+
+        def op_start(name):
+            out.ops.append([name, sim.now(), None, None]); return len(out.ops) - 1
+        def op_end(i, outcome):
+            out.ops[i][2] = sim.now(); out.ops[i][3] = outcome
+
+        async def handler(client):
+            who = None
+            i = None
+            try:
+                while True:
+                    d = await client.recv()
+                    if who is None:
+                        who = d[:1].decode()
+                        handlers[who] = client
+                        i = op_start("handler@" + who)
+                    await client.send(b"echo:" + d)
+                    if how_a_ends == "kicked" and who == "A" and d.endswith(b"2"):
+                        await client.close()
+            except anyio.EndOfStream:
+                pass
+            if i is not None:
+                op_end(i, "returned")
+
+        async def client(name, rounds, end):
+            i = op_start("connect@" + name)
+            try:
+                async with prudp.connect(s, SERVER[0], SERVER[1]) as c:
+                    addr[name] = c.local_address()
+                    op_end(i, "ok")
+                    for r in range(rounds):
+                        await c.send(name.encode() + b":%d" % r)
+                        with anyio.move_on_after(quant(bound + 2)):
+                            await c.recv()
+                        await anyio.sleep(quant(0.2617))
+                    if end == "disconnect":
+                        j = op_start("disconnect@" + name)
+                        await c.disconnect()
+                        op_end(j, "returned")
+                    elif end == "dies":
+                        dead.add(addr[name])
+                        setattr(out, name.lower() + "_dead_at", sim.now())
+                        with anyio.move_on_after(quant(3 * bound + 5)):
+                            try:
+                                while True: await c.recv()
+                            except anyio.EndOfStream:
+                                pass
+                    elif end == "wait":
+                        try:
+                            while True: await c.recv()
+                        except anyio.EndOfStream:
+                            pass
+            except BaseException as e:
+                if out.ops[i][2] is None:
+                    op_end(i, "failed:" + repr(e)[:60])
+
+        async def main():
+            async with prudp.serve_transport(s, SERVER[0], SERVER[1]) as transport:
+                async with transport.serve(handler, 1, 10, None):
+                    stream_ref["stream"] = transport.ports.get(1, 10)
+                    async with anyio.create_task_group() as tg:
+                        tg.start_soon(client, "A", 3, {"disconnect": "disconnect", "dies": "dies", "kicked": "wait"}[how_a_ends])
+                        await anyio.sleep(quant(0.05))
+                        # B stays connected well beyond the end of A (whatever way A ends), then its link dies silently
+                        tg.start_soon(client, "B", 3 + int((2 * bound + 2) / 0.3), "dies")
+                    await anyio.sleep(quant(bound + 1.0))
+                    out.server_table = len(stream_ref["stream"].clients)
+
+        async def guarded():
+            with anyio.move_on_after(20 * bound + 60) as scope:
+                await main()
+            out.timed_out = scope.cancelled_caught
+        try:
+            sim.run(guarded()); out.crash = None
+        except Deadlock as e:
+            out.crash = "deadlock: " + str(e); out.timed_out = False
+        except BaseException as e:
+            out.crash = repr(e); out.timed_out = False
+        out.netlog = log
+        out.end_time = sim.now()
+        out.n_datagrams = sim.net.ngen
+        out.bound = bound
+        out.b_dead_at = getattr(out, "b_dead_at", None)
+    return out
